@@ -89,7 +89,7 @@ pub fn run(cfg: &RunCfg) -> PropRun {
     );
     run.absorb(out);
     run.stats.exhaustive_subspaces.push(json!({"name": "diff small scope ordered pairs", "versions": n, "pairs": n * n}));
-    let total = cfg.pick(300_000, 6_000_000);
+    let total = cfg.pick(1_000_000, 10_000_000);
     let out = campaign(cfg, ID, "related-pairs", total, || gv::related(2), |vs: &Vec<MVersion>, st| check_pair(&vs[0], &vs[1], st));
     run.absorb(out);
     run
